@@ -818,13 +818,13 @@ pub fn run(ctx: &Ctx, _replay: Option<&str>) {
     let stats = EntryStats::default();
     let tot = Totals::default();
     // ---------------- C10
-    let budget = AtomicU64::new(ctx.n(1500, 12_000));
+    let budget = AtomicU64::new(ctx.n(600, 12_000));
     let nprog = ctx.n(10, 24) as usize;
     for pid in 0..nprog { exhaustive(ctx, &root, pid, 2, if ctx.quick() { 40 } else { 70 }, &budget, &stats, &tot); }
     if !ctx.quick() { for pid in 0..5 { exhaustive(ctx, &root, 100 + pid, 3, 34, &budget, &stats, &tot); } }
-    let budget2 = AtomicU64::new(ctx.n(600, 6000));
+    let budget2 = AtomicU64::new(ctx.n(300, 6000));
     for pid in 0..ctx.n(12, 60) as usize { random_sched(ctx, &root, pid, ctx.n(250, 1500) as usize, &budget2, &stats, &tot); }
-    random_states(ctx, &root, ctx.n(20_000, 400_000) as usize, &stats);
+    random_states(ctx, &root, ctx.n(12_000, 400_000) as usize, &stats);
     let (seen, tried) = negative_control(ctx, &root, &stats);
     ctx.stat("c10.negative_control.detected", seen as i64);
     ctx.stat("c10.negative_control.tried", tried as i64);
@@ -840,8 +840,8 @@ pub fn run(ctx: &Ctx, _replay: Option<&str>) {
     // ---------------- C12
     let t = T12 { progs: Default::default(), halts: Default::default(), excs: Default::default(), other_err: Default::default(), lock_steps: Default::default(),
                   real_tail: Default::default(), limit: Default::default(), api_runs: Default::default() };
-    let n12 = ctx.n(4000, 60_000) as usize;
-    let cases12 = ctx.n(500, 5000) as usize;
+    let n12 = ctx.n(2500, 60_000) as usize;
+    let cases12 = ctx.n(250, 5000) as usize;
     par_for(n12, |k| c12_pair(ctx, &root, k, &t, &stats, k < cases12));
     for (k, v) in [("programs", &t.progs), ("virtual_halt", &t.halts), ("exc_illegal_opcode", &t.excs[0]), ("exc_invalid_format", &t.excs[1]), ("exc_privilege", &t.excs[2]),
                    ("exc_access", &t.excs[3]), ("other_stop", &t.other_err), ("lockstep_steps", &t.lock_steps), ("real_tail_steps", &t.real_tail),
